@@ -90,3 +90,33 @@ Proof. reflexivity. Qed.
 Lemma inb_mk_inv d f j : inb (mk d f) j -> forall a, a < d -> rd j a < f a.
 Proof. intros H a Ha. pose proof (inb_rd _ _ H a) as H1. rewrite length_mk in H1.
   rewrite rd_mk in H1 by exact Ha. apply H1, Ha. Qed.
+
+(** unravel lands in bounds and is the inverse of ravel on addresses *)
+Lemma size_pos_tl n s : 0 < size (n :: s) -> 0 < size s.
+Proof. rewrite size_cons. destruct (size s); lia. Qed.
+
+Lemma unravel_inb shp A : A < size shp -> inb shp (unravel shp A).
+Proof.
+  revert A. induction shp as [|n s IH]; intros A H; cbn [unravel]; [constructor|].
+  rewrite size_cons in H.
+  assert (Hs : 0 < size s) by (destruct (size s); lia).
+  constructor.
+  - apply Nat.div_lt_upper_bound; [lia|]. lia.
+  - apply IH. apply Nat.mod_upper_bound. lia.
+Qed.
+
+Lemma ravel_unravel shp A : A < size shp -> ravel shp (unravel shp A) = A.
+Proof.
+  revert A. induction shp as [|n s IH]; intros A H; cbn [unravel ravel].
+  - cbn in H. lia.
+  - rewrite size_cons in H.
+    assert (Hs : 0 < size s) by (destruct (size s); lia).
+    rewrite IH by (apply Nat.mod_upper_bound; lia).
+    pose proof (Nat.div_mod A (size s) ltac:(lia)). lia.
+Qed.
+
+Lemma inb_rd_lt shp idx a : inb shp idx -> a < length shp -> rd idx a < rd shp a.
+Proof. intros H. apply inb_rd. exact H. Qed.
+
+Lemma rd_default l a : length l <= a -> rd l a = 0.
+Proof. intros H. unfold rd. apply nth_overflow. exact H. Qed.
